@@ -1,0 +1,382 @@
+//! Verification hooks. Compiled only with `--cfg noodles_verif`.
+//!
+//! The modules below shadow the `crossbeam_channel`, `rayon`, `std::thread` and `tokio::task`
+//! names inside the multithreaded and async BGZF modules. With no runtime installed on the
+//! calling thread they forward to the real crates.
+
+#![allow(missing_docs)]
+
+use std::{
+    cell::RefCell,
+    sync::{Arc, RwLock},
+};
+
+/// What kind of thread is being spawned.
+#[derive(Clone, Copy, Debug, Eq, PartialEq)]
+pub enum SpawnKind {
+    Thread,
+    PoolTask,
+    Blocking,
+}
+
+/// A controlled runtime installed by a verification harness.
+pub trait Runtime: Send + Sync {
+    /// A scheduling point. `ready` tells the scheduler whether the pending operation can complete.
+    fn point(&self, label: &'static str, ready: &dyn Fn() -> bool);
+    /// Spawns a controlled thread. The runtime installs itself on the new thread.
+    fn spawn(&self, kind: SpawnKind, f: Box<dyn FnOnce() + Send + 'static>) -> usize;
+    /// Returns whether the controlled thread finished.
+    fn is_finished(&self, id: usize) -> bool;
+    /// The modelled pool size.
+    fn pool_size(&self) -> usize;
+}
+
+thread_local! {
+    static RUNTIME: RefCell<Option<Arc<dyn Runtime>>> = const { RefCell::new(None) };
+}
+
+/// Installs (or removes) the controlled runtime of the calling thread.
+pub fn install(runtime: Option<Arc<dyn Runtime>>) {
+    RUNTIME.with(|r| *r.borrow_mut() = runtime);
+}
+
+fn runtime() -> Option<Arc<dyn Runtime>> {
+    RUNTIME.try_with(|r| r.borrow().clone()).ok().flatten()
+}
+
+type Gate = Arc<dyn Fn(&'static str) + Send + Sync>;
+
+static GATE: RwLock<Option<Gate>> = RwLock::new(None);
+
+/// Registers a callback invoked at the start of every pool / blocking task (free-running runs).
+pub fn set_gate(gate: Option<Gate>) {
+    *GATE.write().unwrap() = gate;
+}
+
+/// Called at the start of every pool / blocking task.
+pub fn gate(kind: &'static str) {
+    let gate = GATE.read().unwrap().clone();
+
+    if let Some(gate) = gate {
+        gate(kind);
+    }
+}
+
+pub mod crossbeam_channel {
+    use std::{
+        collections::VecDeque,
+        fmt,
+        sync::{Arc, Mutex},
+    };
+
+    use super::Runtime;
+
+    pub struct SendError<T>(pub T);
+
+    impl<T> fmt::Debug for SendError<T> {
+        fn fmt(&self, f: &mut fmt::Formatter<'_>) -> fmt::Result {
+            f.write_str("SendError(..)")
+        }
+    }
+
+    #[derive(Debug)]
+    pub struct RecvError;
+
+    struct State<T> {
+        queue: VecDeque<T>,
+        cap: usize,
+        senders: usize,
+        receivers: usize,
+    }
+
+    struct Chan<T> {
+        rt: Arc<dyn Runtime>,
+        state: Mutex<State<T>>,
+    }
+
+    enum Tx<T> {
+        Real(::crossbeam_channel::Sender<T>),
+        Model(Arc<Chan<T>>),
+    }
+
+    enum Rx<T> {
+        Real(::crossbeam_channel::Receiver<T>),
+        Model(Arc<Chan<T>>),
+    }
+
+    pub struct Sender<T>(Tx<T>);
+    pub struct Receiver<T>(Rx<T>);
+
+    pub fn bounded<T>(cap: usize) -> (Sender<T>, Receiver<T>) {
+        match super::runtime() {
+            None => {
+                let (tx, rx) = ::crossbeam_channel::bounded(cap);
+                (Sender(Tx::Real(tx)), Receiver(Rx::Real(rx)))
+            }
+            Some(rt) => {
+                assert!(cap > 0, "rendezvous channels are not modelled");
+
+                let chan = Arc::new(Chan {
+                    rt,
+                    state: Mutex::new(State {
+                        queue: VecDeque::new(),
+                        cap,
+                        senders: 1,
+                        receivers: 1,
+                    }),
+                });
+
+                (Sender(Tx::Model(chan.clone())), Receiver(Rx::Model(chan)))
+            }
+        }
+    }
+
+    impl<T> Sender<T> {
+        pub fn send(&self, value: T) -> Result<(), SendError<T>> {
+            match &self.0 {
+                Tx::Real(tx) => tx.send(value).map_err(|e| SendError(e.0)),
+                Tx::Model(chan) => {
+                    chan.rt.point("chan.send", &|| {
+                        let s = chan.state.lock().unwrap();
+                        s.queue.len() < s.cap || s.receivers == 0
+                    });
+
+                    let mut s = chan.state.lock().unwrap();
+
+                    if s.receivers == 0 {
+                        Err(SendError(value))
+                    } else {
+                        s.queue.push_back(value);
+                        Ok(())
+                    }
+                }
+            }
+        }
+    }
+
+    impl<T> Clone for Sender<T> {
+        fn clone(&self) -> Self {
+            match &self.0 {
+                Tx::Real(tx) => Self(Tx::Real(tx.clone())),
+                Tx::Model(chan) => {
+                    chan.state.lock().unwrap().senders += 1;
+                    Self(Tx::Model(chan.clone()))
+                }
+            }
+        }
+    }
+
+    impl<T> Drop for Sender<T> {
+        fn drop(&mut self) {
+            if let Tx::Model(chan) = &self.0 {
+                chan.rt.point("chan.drop_tx", &|| true);
+                chan.state.lock().unwrap().senders -= 1;
+            }
+        }
+    }
+
+    impl<T> Receiver<T> {
+        pub fn recv(&self) -> Result<T, RecvError> {
+            match &self.0 {
+                Rx::Real(rx) => rx.recv().map_err(|_| RecvError),
+                Rx::Model(chan) => {
+                    chan.rt.point("chan.recv", &|| {
+                        let s = chan.state.lock().unwrap();
+                        !s.queue.is_empty() || s.senders == 0
+                    });
+
+                    let mut s = chan.state.lock().unwrap();
+                    s.queue.pop_front().ok_or(RecvError)
+                }
+            }
+        }
+    }
+
+    impl<T> Drop for Receiver<T> {
+        fn drop(&mut self) {
+            if let Rx::Model(chan) = &self.0 {
+                chan.rt.point("chan.drop_rx", &|| true);
+
+                // Like crossbeam, disconnecting the last receiver discards queued messages.
+                let queue = {
+                    let mut s = chan.state.lock().unwrap();
+                    s.receivers -= 1;
+
+                    if s.receivers == 0 {
+                        std::mem::take(&mut s.queue)
+                    } else {
+                        VecDeque::new()
+                    }
+                };
+
+                drop(queue);
+            }
+        }
+    }
+}
+
+pub mod rayon {
+    use super::SpawnKind;
+
+    pub fn spawn<F>(f: F)
+    where
+        F: FnOnce() + Send + 'static,
+    {
+        match super::runtime() {
+            None => ::rayon::spawn(f),
+            Some(rt) => {
+                rt.spawn(SpawnKind::PoolTask, Box::new(f));
+            }
+        }
+    }
+
+    pub fn current_num_threads() -> usize {
+        match super::runtime() {
+            None => ::rayon::current_num_threads(),
+            Some(rt) => rt.pool_size(),
+        }
+    }
+}
+
+pub mod thread {
+    use std::{
+        panic::{self, AssertUnwindSafe},
+        sync::{Arc, Mutex},
+    };
+
+    use super::{Runtime, SpawnKind};
+
+    enum Inner<T> {
+        Real(std::thread::JoinHandle<T>),
+        Model {
+            rt: Arc<dyn Runtime>,
+            id: usize,
+            slot: Arc<Mutex<Option<std::thread::Result<T>>>>,
+        },
+    }
+
+    pub struct JoinHandle<T>(Inner<T>);
+
+    pub fn spawn<F, T>(f: F) -> JoinHandle<T>
+    where
+        F: FnOnce() -> T + Send + 'static,
+        T: Send + 'static,
+    {
+        match super::runtime() {
+            None => JoinHandle(Inner::Real(std::thread::spawn(f))),
+            Some(rt) => {
+                let slot = Arc::new(Mutex::new(None));
+                let s = slot.clone();
+
+                let id = rt.spawn(
+                    SpawnKind::Thread,
+                    Box::new(move || {
+                        let result = panic::catch_unwind(AssertUnwindSafe(f));
+                        *s.lock().unwrap() = Some(result);
+                    }),
+                );
+
+                JoinHandle(Inner::Model { rt, id, slot })
+            }
+        }
+    }
+
+    impl<T> JoinHandle<T> {
+        pub fn join(self) -> std::thread::Result<T> {
+            match self.0 {
+                Inner::Real(handle) => handle.join(),
+                Inner::Model { rt, id, slot } => {
+                    rt.point("thread.join", &|| rt.is_finished(id));
+                    slot.lock().unwrap().take().expect("missing thread result")
+                }
+            }
+        }
+    }
+}
+
+#[cfg(feature = "async")]
+pub mod tokio {
+    pub mod task {
+        use std::{
+            future::Future,
+            io,
+            pin::Pin,
+            sync::{Arc, Mutex},
+            task::{Context, Poll, Waker},
+        };
+
+        use crate::verif::SpawnKind;
+
+        struct Slot<T> {
+            value: Option<std::thread::Result<T>>,
+            waker: Option<Waker>,
+        }
+
+        enum Inner<T> {
+            Real(::tokio::task::JoinHandle<T>),
+            Model(Arc<Mutex<Slot<T>>>),
+        }
+
+        pub struct JoinHandle<T>(Inner<T>);
+
+        impl<T> Unpin for JoinHandle<T> {}
+
+        pub fn spawn_blocking<F, T>(f: F) -> JoinHandle<T>
+        where
+            F: FnOnce() -> T + Send + 'static,
+            T: Send + 'static,
+        {
+            match crate::verif::runtime() {
+                None => JoinHandle(Inner::Real(::tokio::task::spawn_blocking(f))),
+                Some(rt) => {
+                    let slot = Arc::new(Mutex::new(Slot {
+                        value: None,
+                        waker: None,
+                    }));
+                    let s = slot.clone();
+
+                    rt.spawn(
+                        SpawnKind::Blocking,
+                        Box::new(move || {
+                            let result = std::panic::catch_unwind(std::panic::AssertUnwindSafe(f));
+
+                            let waker = {
+                                let mut slot = s.lock().unwrap();
+                                slot.value = Some(result);
+                                slot.waker.take()
+                            };
+
+                            if let Some(waker) = waker {
+                                waker.wake();
+                            }
+                        }),
+                    );
+
+                    JoinHandle(Inner::Model(slot))
+                }
+            }
+        }
+
+        impl<T> Future for JoinHandle<T> {
+            type Output = Result<T, io::Error>;
+
+            fn poll(mut self: Pin<&mut Self>, cx: &mut Context<'_>) -> Poll<Self::Output> {
+                match &mut self.0 {
+                    Inner::Real(handle) => Pin::new(handle).poll(cx).map_err(io::Error::from),
+                    Inner::Model(slot) => {
+                        let mut slot = slot.lock().unwrap();
+
+                        match slot.value.take() {
+                            Some(Ok(value)) => Poll::Ready(Ok(value)),
+                            Some(Err(_)) => Poll::Ready(Err(io::Error::other("task panicked"))),
+                            None => {
+                                slot.waker = Some(cx.waker().clone());
+                                Poll::Pending
+                            }
+                        }
+                    }
+                }
+            }
+        }
+    }
+}
